@@ -99,7 +99,7 @@ def cases(tier, seed):
             for j in range(k if prec is None else 2):
                 cs.append({'gen': 'solve', 'routine': 'amen_solve', 'cls': cls, 'N': N, 'RB': gens.rank_profile(rng, d, 'rand', 2 if cls == 'spd' else 3), 'Rb': gens.rank_profile(rng, d, 'rand', 3),
                            'rhs': ['random', 'image'][i % 2], 'cfac': 10 ** rng.uniform(-0.3, 1.5), 'shift': [0.0, 0.1][(i // 3) % 2], 'eps': 10 ** rng.uniform(-9, -3), 'prec': prec,
-                           'max_full': [0, 500][j % 2] if prec is not None else [500, 0][(i + j) % 2], 'x0': ['none', 'user'][(i // 3 + j + pi) % 2], 'vseed': rng.randrange(2 ** 40), 'sidx': j})
+                           'max_full': [0, 500][j % 2] if prec is not None else [500, 0][(i + j) % 2], 'x0': ['none', 'user', 'none', 'user', 'zero', 'zerocore'][(i // 3 + j + pi) % 6], 'vseed': rng.randrange(2 ** 40), 'sidx': j})
     for N in ([12, 12, 12], [8, 12, 12]):
         for prec in (None, 'c'):
             cs.append({'gen': 'solve', 'routine': 'amen_solve', 'cls': 'lap', 'N': N, 'RB': [1] * 4, 'Rb': [1, 2, 2, 1], 'rhs': 'random', 'cfac': 1.0, 'shift': 0.0, 'eps': 1e-10, 'prec': prec,
@@ -171,6 +171,13 @@ def run_solve(case, ctx, cnt):
         return
     eps = case['eps']
     x0 = None
+    if case['x0'] in ('zero', 'zerocore'):
+        rr = random.Random(case['vseed'] + 6)
+        x0c = gens.make_cores(N, [1] + [rr.randint(1, 3) for _ in N[1:]] + [1], torch.float64, 'gauss', g)
+        j0 = rr.randrange(len(N))
+        x0c = [c * 0 if (case['x0'] == 'zero' or k == j0) else c for k, c in enumerate(x0c)]
+        x0 = torchtt.TT(x0c)
+        ctx.count('x0:degenerate')
     if case['x0'] == 'user':
         rr = random.Random(case['vseed'] + 5)
         x0 = gens.make_tt(N, [1] + [rr.randint(1, 3) for _ in N[1:]] + [1], torch.float64, 'gauss', g)
